@@ -23,6 +23,36 @@ IDS = ["1", "a b", "é", "0", "id:1", "x\u0085y", "3 ", " 4", "\u2029p", "\x0bv\
 LINE_SPLIT = re.compile(r"\r\n|\r|\n")
 
 
+class SpuriousCancel(Exception):
+    pass
+
+
+STATEFUL = {"iso2022_jp": ["日本", "語", "かな", "カ"], "shift_jis_2004": ["日本", "語", "ｶﾅ", "〜"], "hz": ["中文", "汉", "字"]}
+
+
+def _fits(c, charset):
+    try:
+        return c.encode(charset).decode(charset) == c
+    except (UnicodeError, LookupError):
+        return False
+
+
+def gen_event_stateful(t, charset):
+    """Events for a charset whose encoder carries state (escape sequences / shift states): only characters it can encode."""
+    own = STATEFUL[charset]
+    alpha = ["a", "b", " ", ":", "\n", "\r", "\r\n", "x y", "", "  lead"] + own + own
+    ev = {}
+    if t.draw(5) != 0:
+        ev["data"] = "".join(t.choice(alpha) for _ in range(t.draw(7)))
+    if t.draw(5) < 2:
+        ev["event"] = t.choice(["e", "add"] + own)
+    if t.draw(3) == 0:
+        ev["id"] = t.choice(["1", "a b"] + own)
+    if t.draw(3) == 0:
+        ev["retry"] = t.choice([0, 3000])
+    return {k: ("".join(c for c in v if _fits(c, charset)) if isinstance(v, str) else v) for k, v in ev.items()}
+
+
 def gen_event(t, latin):
     ev = {}
     exotic = LATIN_EXOTIC if latin else EXOTIC
@@ -96,11 +126,11 @@ class C19(Prop):
 
     def gen_plan(self, t):
         surface = t.weighted([(3, "asgi-sse"), (2, "wsgi-sse")])
-        charset = t.weighted([(6, "utf-8"), (2, "latin-1")])
+        charset = t.weighted([(12, "utf-8"), (4, "latin-1"), (1, "iso2022_jp"), (1, "shift_jis_2004"), (1, "hz")])
         latin = charset == "latin-1"
         P = t.choice([1.0, 2.0])
         n = 1 + t.draw(4)
-        events = [order_keys(t, gen_event(t, latin)) for _ in range(n)]
+        events = [order_keys(t, gen_event_stateful(t, charset) if charset in STATEFUL else gen_event(t, latin)) for _ in range(n)]
         twice = None
         if t.draw(6) == 0:
             twice = t.draw(n)   # the item at this index is yielded a second time (same object)
@@ -112,7 +142,9 @@ class C19(Prop):
                 "reuse": t.draw(6) == 0,
                 # (ASGI) the receive channel has nothing to offer besides the request: asking again raises; the client is still there
                 "recv_raises": t.draw(8) == 0,
-                "shape": t.choice([None] * 9 + ["str-enum", "proxy", "chainmap"])}
+                "shape": t.choice([None] * 9 + ["str-enum", "proxy", "chainmap"]),
+                # (ASGI) loop iterations take (virtual) time: timers may fall due between callbacks of one instant
+                "tick": t.draw(2) == 0}
         if surface == "wsgi-sse":
             plan["preempt"] = t.choice([(0, 1), (1, 20), (1, 5)])
             plan["cdelays"] = [t.choice((0.0, 0.0, 0.001, P / 2, P + 0.001)) for _ in range(6)]
@@ -178,13 +210,25 @@ class C19(Prop):
             peer = AsgiHttpPeer(loop, ctx, ctx.sched, AbstractRequest("GET", "/"), send_lats=lats, surface="asgi-sse", recv_raises_after_script=plan.get("recv_raises", False))
             r = SendEventResponse(Feed() if plan.get("reuse") else gen(), ping_interval=P, charset=plan["charset"])
             exc = None
+
+            async def call(p):
+                tk = loop.create_task(r(p.scope, p.receive, p.send), name="response")
+                try:
+                    await asyncio.wait([tk])
+                finally:
+                    if not tk.done():
+                        tk.cancel()
+                if tk.cancelled():
+                    raise SpuriousCancel("the response call ended in CancelledError although nobody cancelled it")
+                tk.result()
+
             try:
-                await r(peer.scope, peer.receive, peer.send)
+                await call(peer)
                 if plan.get("reuse"):
                     ctx.probe("response_object_reused")
                     first = b"".join(peer.body_chunks)
                     peer = AsgiHttpPeer(loop, ctx, ctx.sched, AbstractRequest("GET", "/"), send_lats=lats, surface="asgi-sse", recv_raises_after_script=plan.get("recv_raises", False))
-                    await r(peer.scope, peer.receive, peer.send)
+                    await call(peer)
                     second = b"".join(peer.body_chunks)
                     if first.replace(b": ping\n\n", b"") != second.replace(b": ping\n\n", b""):
                         ctx.violate("C19|asgi-sse|reused-response-object-delivers-differently", "first request %r, second request %r" % (first[:120], second[:120]))
@@ -194,7 +238,7 @@ class C19(Prop):
             return exc, list(peer.body_chunks), peer.header("content-type")
 
         try:
-            (exc, chunks, ctype), loop = run_sim(scenario, ctx.sched, ctx, vcap=2000.0)
+            (exc, chunks, ctype), loop = run_sim(scenario, ctx.sched, ctx, vcap=2000.0, tick=(0.0, 1e-7, 2e-7) if plan.get("tick") else None)
         except (SimDeadlock, SimTimeLimit, SimStepLimit) as e:
             ctx.violate("C19|asgi-sse|hang|%s" % type(e).__name__, str(e))
             return None
